@@ -691,13 +691,13 @@ pub trait AsRawFd { fn as_raw_fd(&self) -> i32; }
 #[verifier::external_body]
 pub fn libc_read(fd: i32, dst: Ptr, count: usize) -> (r: isize)
     requires dst.valid_for(count as int), // [C01]
-        dst.live@, // [C17]
+        dst.live@, // [C17,C12]
     ensures -1 <= r <= count,
 { unimplemented!() }
 #[verifier::external_body]
 pub fn libc_write(fd: i32, src: Ptr, count: usize) -> (r: isize)
     requires src.valid_for(count as int), // [C01]
-        src.live@, // [C17]
+        src.live@, // [C17,C12]
     ensures -1 <= r <= count,
 { unimplemented!() }
 /// isize -> usize `try_into().unwrap()`
